@@ -443,6 +443,12 @@ class Alg:
                         for k in range(0, 1000):
                             if Fraction(k * k) == v:
                                 return const(k)
+                    if len(args) == 1 and args[0].is_const() and args[0].constval() == 0:
+                        # exact values at zero
+                        if name in ("sin", "tan", "asin", "atan", "sinh", "tanh"):
+                            return const(0)
+                        if name in ("cos", "cosh", "exp"):
+                            return const(1)
                     return self._atom(opaque_name(name, args))
             raise Uninterpreted("call %s" % ast.unparse(node)[:80])
         if isinstance(node, ast.IfExp):
